@@ -558,6 +558,169 @@ def d4_d5(chk: Check, model: CliModel) -> None:
                      "console script target {} does not exist".format(q))
 
 
+def d6_every_document(chk: Check, funcs: List[FuncInfo]) -> None:
+    """A loop over the documents of a stream, or over the files named on
+    the command line, is left early only on a failure path (a document that
+    did not load, a non-zero status just obtained).  A `break` on any other
+    path silently drops the remaining documents with exit status 0."""
+    from sa.cli import state_vars
+    from sa.guards import atoms
+    chk.rule("C16-D6", "per-document / per-file loops are left early only "
+             "on a failure path", floor=8)
+    for fi in funcs:
+        svars = set(state_vars(fi))
+        # success flags: second element of a 2-tuple unpacked from a call
+        # or from the document generator
+        flags: Set[str] = set()
+        for n in walk_local(fi.node):
+            tgt = None
+            if isinstance(n, ast.For):
+                tgt = n.target
+            elif isinstance(n, ast.Assign) and isinstance(n.value, ast.Call):
+                tgt = n.targets[0]
+            if isinstance(tgt, ast.Tuple) and len(tgt.elts) == 2 and \
+                    isinstance(tgt.elts[1], ast.Name):
+                flags.add(tgt.elts[1].id)
+        for loop in walk_local(fi.node):
+            if not isinstance(loop, ast.For):
+                continue
+            it = src(loop.iter)
+            if not ("get_yaml_multidoc_data" in it or
+                    it.endswith(("yaml_files", "rhs_files"))):
+                continue
+            exits = [b for b in walk_local(loop) if isinstance(b, ast.Break)
+                     and next((a for a in ancestors(b)
+                               if isinstance(a, (ast.For, ast.While))),
+                              None) is loop]
+            text = "{}: for ... in {}".format(fi.short, it[:45])
+            bad = []
+            for b in exits:
+                ok = False
+                for f in facts_at(b):
+                    if f.kind != "cond":
+                        continue
+                    e, pol = f.expr, f.pol
+                    while isinstance(e, ast.UnaryOp) and \
+                            isinstance(e.op, ast.Not):
+                        e, pol = e.operand, not pol
+                    if isinstance(e, ast.Name) and e.id in flags and not pol:
+                        ok = True
+                    if isinstance(e, ast.Compare) and len(e.ops) == 1 and \
+                            isinstance(e.left, ast.Name) and \
+                            e.left.id in svars and \
+                            src(e.comparators[0]) == "0":
+                        if (isinstance(e.ops[0], ast.Eq) and not pol) or \
+                                (isinstance(e.ops[0], (ast.NotEq, ast.Gt))
+                                 and pol):
+                            ok = True
+                if not ok:
+                    bad.append(b)
+            if bad:
+                chk.fail("C16-D6", fi, bad[0], text,
+                         "`break` at line {} leaves the loop on a path that "
+                         "is not a failure path: the remaining documents "
+                         "are never processed and the status stays 0"
+                         .format(bad[0].lineno))
+            else:
+                chk.ok("C16-D6", fi, loop, text,
+                       "{} early exit(s), all on failure paths".format(
+                           len(exits)))
+
+
+def _loaded_pairs(fi: FuncInfo) -> List[Tuple[str, str, ast.AST]]:
+    """(document variable, loaded flag, binding node) for every unpacking
+    of the loader's (data, loaded) pair."""
+    out = []
+    for n in walk_local(fi.node):
+        tgt = call = None
+        if isinstance(n, ast.For):
+            tgt, call = n.target, n.iter
+        elif isinstance(n, ast.Assign) and len(n.targets) == 1:
+            tgt, call = n.targets[0], n.value
+        if isinstance(tgt, ast.Tuple) and len(tgt.elts) == 2 and \
+                all(isinstance(e, ast.Name) for e in tgt.elts) and \
+                isinstance(call, ast.Call) and src(call.func).endswith(
+                    ("get_yaml_data", "get_yaml_multidoc_data")):
+            out.append((tgt.elts[0].id, tgt.elts[1].id, n))
+    return out
+
+
+def d8_loaded_documents(chk: Check, funcs: List[FuncInfo],
+                        rid: str = "C16-D8", floor: int = 6) -> None:
+    """What the loader hands back is (document, loaded?).  The flag decides
+    whether there is a document at all: the document is looked at only
+    where the flag is known to be true (a failed load also yields None, so
+    testing the document first takes a broken file for an empty one), and
+    a document is never judged by truthiness (an empty list, 0 or false is
+    a document)."""
+    from rules.c06 import falsy_and_absent_sites
+    chk.rule(rid, "a loaded document is read only under its loaded "
+             "flag, and never tested for truthiness", floor=floor)
+    for fi in funcs:
+        pairs = _loaded_pairs(fi)
+        if not pairs:
+            continue
+        for doc, flag, bind in pairs:
+            text = "{}: ({}, {}) from the loader".format(fi.short, doc, flag)
+            if doc == "_":
+                chk.ok(rid, fi, bind, text, "document not used", False)
+                continue
+            bad_reads = []
+            for n in walk_local(fi.node):
+                if not (isinstance(n, ast.Name) and n.id == doc and
+                        isinstance(n.ctx, ast.Load)):
+                    continue
+                if n.lineno <= bind.lineno and not isinstance(bind, ast.For):
+                    continue
+                ok = False
+                for f in facts_at(n):
+                    if f.kind != "cond":
+                        continue
+                    e, pol = f.expr, f.pol
+                    while isinstance(e, ast.UnaryOp) and \
+                            isinstance(e.op, ast.Not):
+                        e, pol = e.operand, not pol
+                    if isinstance(e, ast.Name) and e.id == flag and pol:
+                        ok = True
+                if not ok:
+                    bad_reads.append(n)
+            if bad_reads:
+                chk.fail(rid, fi, bad_reads[0], text,
+                         "`{}` is read at line {} where `{}` is not known "
+                         "to be true: a file that failed to load is treated "
+                         "like an empty document".format(
+                             doc, bad_reads[0].lineno, flag))
+            else:
+                chk.ok(rid, fi, bind, text,
+                       "every read is dominated by the flag")
+            bad, _ = falsy_and_absent_sites(fi.node, set(), set(),
+                                            doc_exprs={doc})
+            for node, why in bad:
+                chk.fail(rid, fi, node, text + " truthiness", why)
+
+
+def d5_ladders(chk: Check) -> None:
+    """Output formatting branches on the class of the node; an arm for a
+    subclass placed after the arm of its base class never runs (a date is a
+    timestamp: it would be printed with a time)."""
+    from sa.ladders import shadowed_arms
+    prog = chk.prog
+    chk.rule("C16-D7", "in the tools and the output helpers no isinstance "
+             "arm is shadowed by an earlier arm for a base class",
+             floor=20)
+    for fi in prog.functions.values():
+        rel = fi.module.relpath
+        if not (rel.startswith("yamlpath/commands/") or
+                rel in ("yamlpath/common/parsers.py",
+                        "yamlpath/common/nodes.py")):
+            continue
+        bad, n = shadowed_arms(prog, fi)
+        for arm, why in bad:
+            chk.fail("C16-D7", fi, arm, "elif " + src(arm.test)[:60], why)
+        for _ in range(n - len(bad)):
+            chk.ok("C16-D7", fi, fi.node, fi.short, "arm reachable", False)
+
+
 def run(chk: Check) -> None:
     prog = chk.prog
     funcs = cli_functions(prog)
@@ -570,3 +733,6 @@ def run(chk: Check) -> None:
     d2_tables(chk, model)
     d3_loaders(chk)
     d4_d5(chk, model)
+    d5_ladders(chk)
+    d6_every_document(chk, funcs)
+    d8_loaded_documents(chk, funcs)
